@@ -59,6 +59,18 @@ NdNext(it) ==        \* it = [rest, dead]; returns <<result, new state>>
   IF it.rest = <<>> THEN <<<<"none">>, it>>
   ELSE IF NdErrs(it.rest) # {} THEN <<<<"err", NdErrs(it.rest)>>, [rest |-> <<>>, dead |-> TRUE]>>
   ELSE LET l == 8 * it.rest[2] IN <<<<"item", it.rest[1], Sub(it.rest, 0, l)>>, [it EXCEPT !.rest = Sub(it.rest, l, Len(it.rest) - l)]>>
+\* typed view of one accepted option o (complete option bytes): option type followed by the values of its fields
+\* (RFC 4861 4.6.1 link layer address, 4.6.2 prefix information, 4.6.3 redirected header, 4.6.4 MTU)
+NdTyped(o) ==
+  LET t == o[1]  n == Len(o) IN
+  CASE t \in {1, 2} -> <<t>> \o Sub(o, 2, n - 2)
+    [] t = 3 -> <<3, o[3], (o[4] \div 128) % 2, (o[4] \div 64) % 2>> \o Sub(o, 4, 8) \o Sub(o, 16, 16)     \* prefix length, L, A, valid, preferred lifetime, prefix
+    [] t = 4 -> <<4>> \o Sub(o, 8, n - 8)                                                                   \* 6 reserved bytes, then the IP header + data
+    [] t = 5 -> <<5>> \o Sub(o, 4, 4)                                                                       \* 2 reserved bytes, MTU
+    [] OTHER -> <<t>> \o Sub(o, 2, n - 2)
+\* prefix information struct re-encoded: reserved bits and bytes are zero
+NdPrefixNorm(o) == <<3, 4, o[3], Mask(o[4], 192)>> \o Sub(o, 4, 8) \o Z(4) \o Sub(o, 16, 16)
+IsErrorKind6(k) == k \in {"DestinationUnreachable", "PacketTooBig", "TimeExceeded", "ParameterProblem"}
 NdKindName(t) == CASE t = 1 -> "SourceLinkLayerAddress" [] t = 2 -> "TargetLinkLayerAddress" [] t = 3 -> "PrefixInformation"
                    [] t = 4 -> "RedirectedHeader" [] t = 5 -> "Mtu" [] OTHER -> "Unknown"
 
